@@ -53,6 +53,11 @@ class Units(object):
 
         self.exponents = tuple(exponents)
 
+        # A unit with a zero numerator or denominator has no inverse
+        if triple[0] == 0 or triple[1] == 0:
+            raise ValueError('units must have a nonzero coefficient: %s/%s'
+                             % (triple[0], triple[1]))
+
         # Convert to coefficients to ints with lowest common denominator
         # if possible
         (numer, denom) = triple[:2]
